@@ -25,8 +25,6 @@ EXEMPT: dict[tuple[str, str], str] = {
         "callers pass pos <= len(src); the loop decrements before reading (pos -= 1 precedes the read)",
     ("StateBlock.skipCharsStrBack", "self.src[P1]"):
         "callers pass pos <= len(src); the loop decrements before reading (pos -= 1 precedes the read)",
-    ("StateBlock.getLines", "self.src[L____]"):
-        "first < last was tested by the enclosing loop; last is eMarks[line] or eMarks[line]+1 only when that is still inside the source",
     ("ParserInline.tokenize", "state.src[state.pos]"):
         "fallback after every rule returned False: by IR-2 no rule moved pos/posMax, so pos is what the loop condition tested",
 }
@@ -85,6 +83,42 @@ def _prov_exempt(f: Func, bounds: "Bounds", s: ast.Subscript) -> str:
     for (rel, allowed, off, why) in PROV_EXEMPT:
         if f.module.rel == rel and prov and prov <= allowed and l[1] == off:
             return why
+    return ""
+
+
+_GETLINES_WHY = ("first < last was tested by the enclosing loop; last is eMarks[line], or eMarks[line] + 1 only when the line feed is "
+                 "kept, which the caller requests only for lines that have one (every line but the last; the last line's eMarks is "
+                 "len(src) and keepLastLF adds 1 only below lineMax)")
+
+
+def _getlines_exempt(f: Func, bounds: "Bounds", s: ast.Subscript) -> str:
+    """The line cutter of StateBlock (getLines or a helper extracted from it): `src[i]` inside a loop guarded by `i < B` where
+    every definition of B is `eMarks[..]` or `eMarks[..] + 1` (possibly selected by a flag)."""
+    if f.module.rel != "rules_block/state_block.py" or f.cls != "StateBlock" or not isinstance(s.slice, ast.Name):
+        return ""
+    idx = s.slice.id
+    q = f.module.parents.get(s)
+    while q is not None and q is not f.node:
+        if isinstance(q, ast.While):
+            for a in ([q.test] if not isinstance(q.test, ast.BoolOp) else q.test.values):
+                while isinstance(a, ast.BoolOp):
+                    a = a.values[0]
+                if isinstance(a, ast.Compare) and len(a.ops) == 1 and isinstance(a.ops[0], ast.Lt) and isinstance(a.left, ast.Name) \
+                        and a.left.id == idx and isinstance(a.comparators[0], ast.Name):
+                    B = a.comparators[0].id
+                    ds = bounds.defs.get(B) or []
+
+                    def emark(e: ast.AST | None) -> bool:
+                        if e is None:
+                            return False
+                        if isinstance(e, ast.IfExp):
+                            return emark(e.body) and emark(e.orelse)
+                        if isinstance(e, ast.BinOp) and isinstance(e.op, ast.Add) and isinstance(e.right, ast.Constant) and e.right.value == 1:
+                            return emark(e.left)
+                        return isinstance(e, ast.Subscript) and isinstance(e.value, ast.Attribute) and e.value.attr == "eMarks"
+                    if ds and all(emark(d) for d in ds):
+                        return _GETLINES_WHY
+        q = f.module.parents.get(q)
     return ""
 
 
@@ -638,6 +672,58 @@ def _module_funcs(c: Ctx, f: Func) -> set[str]:
            {k[0] for k in EXEMPT if k[0].split(".")[0] == (f.cls or "")}
 
 
+def _derived_param_facts(c: Ctx, f: Func, contracts: dict, valid: dict, blk: dict, depth: int = 0) -> list[tuple[str, str, int]]:
+    if depth > 1 or f.cls is not None and not f.name.startswith("_"):
+        return []
+    if f.cls is None and not f.name.startswith("_"):
+        return []
+    sites = c.cg.callers.get(f, [])
+    if not sites or any(cs.kind not in ("direct", "method") for cs in sites):
+        return []
+    params = [a.arg for a in f.node.args.posonlyargs + f.node.args.args]
+    acc: Facts | None = None
+    for cs in sites:
+        g = cs.caller
+        gz = Facts()
+        for (a0, b0, k0, _) in (contracts.get(g, []) if valid.get(g, False) else []) + blk.get(g, []):
+            gz.add(a0, b0, k0)
+        if not gz.d:
+            for (a0, b0, k0) in _derived_param_facts(c, g, contracts, valid, blk, depth + 1):
+                gz.add(a0, b0, k0)
+        gcfg, gres = bnd_facts(c, g, gz if gz.d else None)
+        amap = {}
+        for pn in params:
+            a = c.eff.arg_for_param(cs, f, pn)
+            la = lin(a) if a is not None else None
+            if la is not None and la[0] is not None:
+                amap[pn] = la
+        e1 = Facts()
+        got = False
+        for nd in gcfg.owner(cs.node):
+            z = gres.get(nd.id)
+            if z is None:
+                continue
+            z = z.copy()
+            if nd.ast is not None:
+                rt = next((x for x in CFG.roots(nd) if _contains(x, cs.node)), nd.ast)
+                z = expr_local(z, cs.node, rt, g.module.parents)
+            z.close()
+            got = True
+            for p1, (t1, o1) in amap.items():
+                for p2, (t2, o2) in amap.items():
+                    if p1 != p2:
+                        k = 0 if t1 == t2 else z.d.get((t1, t2))
+                        if k is not None:
+                            e1.add(p1, p2, k + o1 - o2)
+        if not got:
+            continue
+        acc = e1 if acc is None else acc.join(e1)
+    if acc is None:
+        return []
+    acc.close()
+    return [(a, b, k) for (a, b), k in acc.d.items()]
+
+
 def rule_bnd(c: Ctx, wide: bool = False) -> RuleResult:
     r = RuleResult("BND", "every integer subscript of a source string is in range on every path (try/IndexError, entailed "
                           "bound, validated entry contract, or reviewed exemption)")
@@ -666,6 +752,12 @@ def rule_bnd(c: Ctx, wide: bool = False) -> RuleResult:
         for (a, b, k, desc) in blk.get(f, []):
             ez.add(a, b, k)
             descs.append(desc)
+        if not ez.d:
+            # a private helper: what every call site establishes between its integer parameters (derived contract - it holds
+            # by construction, being the join of the facts at all its call sites)
+            for (a, b, k) in _derived_param_facts(c, f, contracts, valid, blk):
+                ez.add(a, b, k)
+                descs.append(f"{a} - {b} <= {k} at every call site")
         cfg, res = bnd_facts(c, f, ez if ez.d else None)
         cfg0, res0 = (cfg, res) if not ez.d else bnd_facts(c, f)
         r.paths += min(cfg.paths_count(), 10**6)
@@ -689,7 +781,7 @@ def rule_bnd(c: Ctx, wide: bool = False) -> RuleResult:
             if how:
                 r.add(key, where, f.short, U(s), "discharged", how)
                 continue
-            why = _prov_exempt(f, bounds, s)
+            why = _prov_exempt(f, bounds, s) or _getlines_exempt(f, bounds, s)
             if why:
                 used_prov.add(why)
                 r.add(key, where, f.short, U(s), "exempt", why)
